@@ -293,6 +293,7 @@ class Parser:
                         flag = False
                     else:
                         self._parse_subtree(current)
+                        self._assert_and_cunsume(TokenType.BRACKET_RIGHT)
 
                 case TokenType.BRACKET_RIGHT:
                     break
